@@ -617,5 +617,9 @@ func (sm *SeatManager) Next() error {
 		return ErrInsufficientNumberOfPlayers
 	}
 
+	if sm.getPlayableSeatCount() < 2 {
+		return ErrInsufficientNumberOfPlayers
+	}
+
 	return sm.renewSeatStatus()
 }
